@@ -5,8 +5,10 @@ cd "$(dirname "$0")/.."
 checks_for() { case $1 in
   B1) echo C02 C03 C06 C07 C08 C09 C13 C14 C15 C04 C05;; B2) echo C16 C14 C15 C09 C12 C06;; B3) echo C12 C01 C10 C15 C11 C05;;
   B4) echo C19 C04 C05 C10 C17 C01 C14 C15;; B5) echo C11 C10 C15;; B6) echo C01 C02 C03 C10 C13 C14 C17 C09 C06 C15;;
-  B7) echo C20 C05 C15 C11 C17;; B8) echo C18 C02 C06 C08 C09 C16 C15 C05;; esac; }
-for b in ${@:-B1 B2 B3 B4 B5 B6 B7 B8}; do
+  B7) echo C20 C05 C15 C11 C17;; B8) echo C18 C02 C06 C08 C09 C16 C15 C05;;
+  B9) echo C14 C09 C15 C04 C05 C17 C06 C13;; B10) echo C10 C12 C01 C14 C17 C04 C15 C11;; B11) echo C11 C10 C15 C12;;
+  B12) echo C08 C09 C02 C13 C07 C06 C15 C14;; B13) echo C04 C05 C19 C14 C15 C01 C03;; B14) echo C01 C11 C02 C09 C15 C06 C14 C10;; esac; }
+for b in ${@:-B1 B2 B3 B4 B5 B6 B7 B8 B9 B10 B11 B12 B13 B14}; do
   WT=$(mktemp -d /tmp/verif-benign-XXXX); rmdir $WT
   git -C /repo worktree add --detach -q $WT HEAD
   if ! git -C $WT apply /verif/benign/$b/patch.diff; then echo "$b PATCH DOES NOT APPLY"; git -C /repo worktree remove --force $WT; continue; fi
